@@ -44,7 +44,7 @@ func balances(db *sqlgen.DB, tx *sql.SQLTx) (map[int64]int64, int64, error) {
 }
 
 func TestParallelTransfers(t *testing.T) {
-	vk.Check(t, 240, 8000, func(rt *rapid.T, c *vk.Case) {
+	vk.Check(t, 240, 6000, func(rt *rapid.T, c *vk.Case) {
 		dir := vk.Dir()
 		defer os.RemoveAll(dir)
 		db, err := sqlgen.Open(dir, sqlgen.DBOpts{})
